@@ -156,7 +156,8 @@ def coq_deps(group):
 # what it builds always reflects the CURRENT tree (never what an earlier run against another tree left).
 GROUP_TRANSLATORS = {
     "stripe": "props.c04", "score": "props.c01", "maxi": "props.c07", "encode": "props.c05", "pwm": "props.c10",
-    "disc": "props.c08",
+    "disc": "props.c08", "scan": "props.c02", "dist": "props.c11", "io": "props.io_specs:C14_SPEC",
+    "sampler": "props.c16", "tfm": "props.c12", "transfac": "props.transfac_specs:C14_SPEC",
 }
 
 
@@ -254,8 +255,11 @@ def translate_deps(group):
         if not modname:
             continue
         try:
+            attr = "SPEC"
+            if ":" in modname:
+                modname, attr = modname.split(":", 1)
             mod = importlib.import_module(modname)
-            spec = getattr(mod, "SPEC", None)
+            spec = getattr(mod, attr, None)
             if spec is None and hasattr(mod, "SPECS"):
                 spec = mod.SPECS[0]
             tr = spec.get("translate") if spec else None
@@ -414,7 +418,8 @@ def audit_theorems(group, module, theorems, timeout=600):
             continue
         axs = []
         for l in txt.splitlines():
-            mm = re.match(r"^([\w.']+)\s*:", l)
+            # `name : type` on one line, or the name alone when Coq breaks the line before a long type
+            mm = re.match(r"^([\w.']+)\s*(:|$)", l)
             if mm and l[0] not in " \t" and mm.group(1) not in ("Axioms", "Fetching", "Opaque", "Transparent"):
                 axs.append(mm.group(1))
         res[t] = axs
